@@ -34,7 +34,8 @@ func init() {
 		NoShrink: true,
 		Gen:      genC16,
 		Check:    checkC16,
-		Required: []string{"read_split_inside_line", "read_split_crlf", "read_error"},
+		Required: []string{"read_error"},
+		Expected: []string{"read_split_inside_line", "read_split_crlf"},
 	})
 }
 
